@@ -22,7 +22,9 @@ REQUIRED_COUNTERS = ['docs:data-with-CDATA-end', 'docs:data-with-comment-marks',
 MIN_CASES = {'quick': 200, 'thorough': 6000}
 WATCHDOG_S = {'quick': 1200, 'thorough': 7200}
 
-TERMS = [('~', '*', ':'), ('!', '|', '>'), ('\n', '|', '^'), ('\x1c', '\x1d', '<'), ('$', '+', '\\'), ('}', '{', ';'), ('\x1e', '\x1f', '&')]
+TERMS = [('~', '*', ':'), ('!', '|', '>'), ('\n', '|', '^'), ('\x1c', '\x1d', '<'), ('$', '+', '\\'), ('}', '{', ';'), ('\x1e', '\x1f', '&'),
+         # the usual delimiter characters in other roles (the converter builds its segments in ~ * : and hands them to a writer set up from the ISA)
+         ('~', '|', '*'), ('*', ':', '~'), (':', '~', '|')]
 _installed = []
 
 
